@@ -23,7 +23,7 @@ def acted (H : Bytes → Bytes) (secret buf : Bytes) : Prop :=
 /-- A handler is invoked and an ACK/NAK sent IF AND ONLY IF the datagram is authentic
     (`Coa.authentic`): at least 20 bytes; RADIUS length field L with 20 ≤ L ≤ datagram size; code 40
     (Disconnect-Request) or 43 (CoA-Request); the attribute area `d[20:L]` is a well-formed TLV sequence
-    (`Coa.attrsWF`, defined on the bytes, independent of the parser); and
+    (`Coa.attrsWF_strict`: the TLVs fill the area exactly; defined on the bytes, independent of the parser); and
     H(d[0:4] ‖ 16 zero bytes ‖ d[20:L] ‖ secret) = d[4:20].  Bytes after L are ignored by both sides. -/
 theorem acted_iff_authentic (H : Bytes → Bytes) (hH : ∀ x, (H x).length = 16) (secret buf : Bytes) :
     acted H secret buf ↔ authentic H secret buf = true := by
@@ -41,25 +41,30 @@ theorem acted_iff_authentic (H : Bytes → Bytes) (hH : ∀ x, (H x).length = 16
     | some req => exact ⟨req, m, rfl⟩
 
 /-- Every response carries the request's identifier and a Response Authenticator that verifies against
-    the request: for the request `req` accepted from datagram `buf` and ANY handler reply, the datagram
-    `resp` sent back has `resp[1] = buf[1]`, the ACK/NAK code that belongs to the request kind, and
-    `resp[4:20] = H(resp[0:4] ‖ buf[4:20] ‖ resp[20:] ‖ secret)`. -/
+    the request, and is itself a well-formed RADIUS packet: for the request `req` accepted from datagram
+    `buf` and ANY handler reply (any error cause, a message of any length), the datagram `resp` sent back has
+    `resp[1] = buf[1]`, the ACK/NAK code that belongs to the request kind,
+    `resp[4:20] = H(resp[0:4] ‖ buf[4:20] ‖ resp[20:] ‖ secret)`, a length field equal to its size, and an
+    attribute area that is a well-formed TLV sequence (`attrsWF_strict`; a Reply-Message longer than 253
+    octets is cut, fix KF-coa-long-reply). -/
 theorem response_verifies (H : Bytes → Bytes) (hH : ∀ x, (H x).length = 16) (secret buf : Bytes)
     (req : Request) (n : Nat) (h : receive H secret buf = .ok (some req, n)) (reply : Reply)
     (resp : Bytes) (hresp : resp = respond H secret req reply) :
     resp[1]? = buf[1]? ∧
     resp[0]? = some (respCode req.kind reply.success) ∧
     (req.kind = .coa ∧ buf.head? = some 43 ∨ req.kind = .dm ∧ buf.head? = some 40) ∧
-    (resp.take 20).drop 4 = H (resp.take 4 ++ (buf.take 20).drop 4 ++ resp.drop 20 ++ secret) := by
+    (resp.take 20).drop 4 = H (resp.take 4 ++ (buf.take 20).drop 4 ++ resp.drop 20 ++ secret) ∧
+    lengthField resp = resp.length ∧
+    attrsWF_strict (resp.drop 20) = true := by
   obtain ⟨r, m, e, _, _, hreq⟩ := receive_spec H hH secret buf
   rw [e] at h
   injection h with h; injection h with h1 _
   obtain ⟨hauth, hid, hkind⟩ := hreq req h1
   have hs := sendResponse_spec H hH secret (respCode req.kind reply.success) req.id req.auth
     reply.errorCause reply.message resp (by rw [hresp]; rfl)
-  refine ⟨by rw [hs.2.1, hid], hs.1, hkind, ?_⟩
+  refine ⟨by rw [hs.2.1, hid], hs.1, hkind, ?_, hs.2.2.2.1, hs.2.2.2.2⟩
   rw [← hauth]
-  exact hs.2.2
+  exact hs.2.2.1
 
 /-- All other datagrams are dropped without effect: if the datagram is not authentic, `receive`
     returns normally (no panic — the listener keeps running) without invoking a handler, hence without
@@ -78,6 +83,16 @@ example : ∀ x, (Md5.md5 x).length = 16 := Md5.md5_length
 /-- non-vacuity of `acted`: with a constant 16-byte "hash" the all-zero-authenticator Disconnect-Request
     below is authentic -/
 example : authentic (fun _ => zeros16) [1] ([40, 7, 0, 20] ++ zeros16) = true := by
-  simp [authentic, lengthField, packetOf, zeros16, beNat, attrsWF]
+  simp [authentic, lengthField, packetOf, zeros16, beNat, attrsWF_strict]
+
+/-- The recorded (and repaired) deviation KF-coa-trailing-byte, as a theorem: before the fix
+    `parseAttributes` accepted an attribute area with one byte left over (`attrsWF_lenient`), which the
+    specification (`attrsWF_strict`) rejects.  `acted_iff_authentic` is stated against the strict notion, so a
+    parser that tolerates ANY slack no longer satisfies it. -/
+theorem KF_coa_trailing_byte_witness :
+    attrsWF_lenient [1, 3, 65, 0x55] = true ∧ attrsWF_strict [1, 3, 65, 0x55] = false := by
+  constructor
+  · simp [attrsWF_lenient]
+  · simp [attrsWF_strict]
 
 end Bng.Spec.C15
